@@ -45,6 +45,9 @@ REAL_VS_STUB = {
     "real": ["molli.pipeline.runner.run_local", "JobInput/JobOutput msgpack dump/load and hash", "tempfile.TemporaryDirectory, os.chdir, pathlib", "Job descriptor / DriverBase"],
     "stub": ["_molli_run process boundary (SimSpawn)", "external programs (FakeExec)"],
 }
+FAULT_PROBES = {"first_command_fails": "first_command_fails", "middle_command_fails": "middle_command_fails", "last_command_fails": "last_command_fails",
+                "death_by_signal": "death_by_signal", "return_file_missing": "return_file_missing", "runner_killed_mid_command": "runner_killed_mid_command",
+                "second_job_same_jid_overlaps": "two_jobs_same_jid_overlap"}
 PROBES = ["all_commands_succeed", "first_command_fails", "middle_command_fails", "last_command_fails", "death_by_signal", "return_file_missing",
           "all_return_files_missing", "return_file_is_input_file", "binary_input_file", "unnamed_command", "no_return_files_requested",
           "runner_killed_mid_command", "driver_second_instance_used_after_first", "driver_job_level_override", "driver_subclass_instance", "driver_created_used_dropped", "driver_class_level_envars", "two_jobs_same_jid_overlap"]
